@@ -271,6 +271,16 @@ pub fn run(args: &Args) -> i32 {
             }
         }
     }
+    // ---------- lock traces recorded by the hooked build (written by `cteverif c05trace`, see tools/props/c05.py)
+    if let Some(tf) = args.extra.get("tracefile") {
+        if let Ok(t) = std::fs::read_to_string(tf) {
+            for l in t.lines() {
+                if let Ok(v) = serde_json::from_str::<Value>(l) {
+                    cw.write(v);
+                }
+            }
+        }
+    }
     // ---------- indicators: history independence and concurrency
     let mut models: Vec<(String, Model)> = crate::corpus::real_models(false);
     let mut rng = Rng::new(args.seed);
